@@ -327,6 +327,9 @@ def caption_sets(thorough):
     yield "two languages, interleaved", {"langs": {
         "en-US": [(S, 3 * S, ["a"], None, None), (4 * S, 5 * S, ["b"], None, None)],
         "fr": [(2 * S, 3 * S, ["c"], None, None), (3 * S, 4 * S + 500000, ["d"], None, None), (6 * S, 7 * S, ["e"], None, None)]}}
+    yield "cue end and next start inside one millisecond", {"langs": {"en-US": [(S, 2 * S + 400, ["a"], None, None),
+                                                                                (2 * S + 900, 3 * S, ["b"], None, None),
+                                                                                (3 * S + 999, 4 * S, ["c"], None, None)]}}
     yield "concurrent captions", {"langs": {"en-US": [(S, 2 * S, ["up"], L1, None), (S, 2 * S, ["down"], L2, None),
                                                       (3 * S, 4 * S, ["next"], None, None)]}}
     yield "one language code a prefix of another", {"langs": {"en-US": [(3 * S, 4 * S, ["american"], None, None)],
@@ -500,10 +503,12 @@ def explore(ctx, thorough):
                                              required=[(fmt_ms(c[0]), fmt_ms(c[1])) for c in runs][:3]))
         # ---------------- the force option of the three DFXP writers: exactly the named language when the set has it,
         # every language otherwise; the paragraphs of each written language as without the option
-        if label in ("two languages", "concurrent captions", "two languages, cue ends coinciding"):
+        if label in ("two languages", "concurrent captions", "two languages, cue ends coinciding", "one language code a prefix of another"):
             for wpath, wname in (("pycaption/dfxp/base.py", "DFXPWriter"), ("pycaption/dfxp/extras.py", "SinglePositioningDFXPWriter"),
                                  ("pycaption/dfxp/extras.py", "LegacyDFXPWriter")):
-                for force in list(spec["langs"]) + ["zz"]:
+                # (every language of the set, the primary subtag of each - which names a language only if the set has exactly
+                #  that code -, and a code the set does not have)
+                for force in list(spec["langs"]) + sorted({l.split("-")[0] for l in spec["langs"]} - set(spec["langs"])) + ["zz"]:
                     try:
                         _, fdoc, _ = W.write(wpath, wname, cs, force=force)
                     except FoldRaise as e:
